@@ -5,6 +5,8 @@ import (
 	"fmt"
 	"math"
 	"os"
+	"os/exec"
+	"path/filepath"
 
 	"github.com/Trendyol/go-dcp/config"
 	"github.com/Trendyol/go-dcp/metadata"
@@ -80,6 +82,32 @@ func init() {
 		Technique: "exhaustive enumeration of the finite product auto-reset x mode x backend x checkpointed-subset x high-seqno vectors, and of the save/restart round trip over a boundary alphabet of 64-bit values, observed at the arguments of the (simulated) DCPAgent.OpenStream, i.e. what gocbcore would put on the wire",
 		Rule:      "resume: {earliest,latest} x {infinite,finite} x 5 backends x all 8 subsets of 3 vBuckets x high seqnos {0,7,2^63,2^64-1}^3; round trip: (vbUUID, seqNo, snapStart, snapEnd) over V^4 restricted to snapStart<=seqNo<=snapEnd with V = representation boundaries, through event -> Ack -> Save -> store -> crash -> Load -> OpenStream; non-trivial = distinct request tuples",
 		Assume:    []string{"values outside the boundary alphabet V are not enumerated", "scheduled build uses the deterministic stand-in for wrapper.ConcurrentSwissMap"},
+		Pure: func(tier string) *PureResult {
+			// the REAL wrapper.ConcurrentSwissMap (binary built without the overlay) against a plain map
+			res := &PureResult{Exhaustive: true}
+			self, _ := os.Executable()
+			out, err := exec.Command(filepath.Join(filepath.Dir(self), "wrapcheck"), tier).Output()
+			if err != nil {
+				res.Violations = append(res.Violations, pureViolation("C02", "wrapcheck could not run: "+err.Error()))
+				return res
+			}
+			var wr struct {
+				Evaluations int64    `json:"evaluations"`
+				Sequences   int64    `json:"sequences"`
+				Violations  []string `json:"violations"`
+			}
+			if err := json.Unmarshal(out, &wr); err != nil {
+				res.Violations = append(res.Violations, pureViolation("C02", "wrapcheck output: "+err.Error()))
+				return res
+			}
+			res.Evaluations, res.Distinct, res.States, res.Transitions = wr.Evaluations, wr.Sequences, wr.Sequences, wr.Evaluations
+			for _, v := range wr.Violations {
+				res.Violations = append(res.Violations, pureViolation("C02", "wrapper.ConcurrentSwissMap differs from a plain map: "+v))
+			}
+			res.Samples = []any{"store(1,10) storeif-lower(1,15) delete(2) json-roundtrip"}
+			res.Notes = []string{"real wrapper.ConcurrentSwissMap vs plain map: every operation sequence up to length 5 (6 thorough) over 2 keys"}
+			return res
+		},
 		Instances: func(tier string) []Instance {
 			var out []Instance
 			for _, b := range c02Backends {
